@@ -252,15 +252,15 @@ EQV_PARTIAL = ['the equivariance theorems are stated for the formula stages (eve
                'equality of the two COMPUTED Newton solutions / linear solves needs local uniqueness and convergence: measured by the oracle (1e-7), not proved']
 
 PROPS['C05'] = dict(
-    lean=['QscProofs.Eqv', 'QscProofs.C20Spec', 'QscProofs.C03Axis', 'QscProofs.EqvGrid'], theorems=eqv_theorems(EQV_ALL) + ['C20Spec.toep_circulant', 'C03Axis.f0_periodic', 'EqvGrid.toep_shift', 'EqvGrid.gridOps_lawful', 'EqvGrid.curvature_shift', 'EqvGrid.X2c_shift', 'EqvGrid.DMerc_times_r2_shift'],
+    lean=['QscProofs.Eqv', 'QscProofs.C20Spec', 'QscProofs.C03Axis', 'QscProofs.EqvGrid', 'QscProofs.C05Sigma'], theorems=eqv_theorems(EQV_ALL) + ['C05Sigma.' + t for t in ('sig_shiftState', 'residual_shift_covariant', 'solution_shift', 'solution_shift_iff', 'gridD_comm_shift', 'residual_shift_covariant_grid', 'solution_shift_grid')] + ['C20Spec.toep_circulant', 'C03Axis.f0_periodic', 'EqvGrid.toep_shift', 'EqvGrid.gridOps_lawful', 'EqvGrid.curvature_shift', 'EqvGrid.X2c_shift', 'EqvGrid.DMerc_times_r2_shift'],
     gen=EQV_ALL, eqv=EQV_ALL, corr=corr_generated(['Axis', 'R1d', 'R2', 'R3']), oracle=oracle_multi(oracles.oracle_C05),
-    rule=RULE, partial=EQV_PARTIAL + ['phi, varphi and (for helicity != 0) the *_untwisted coefficients are coordinate-dependent: they follow explicit laws (checked by the oracle), not a cyclic shift'])
+    rule=RULE, partial=EQV_PARTIAL + ['the first-order solve: the cyclically shifted solution (same iota, sigma0 taken at the new origin) solves the shifted discrete sigma equation - proved for the generated residual and the concrete spectral matrix with constant weight (C05Sigma); that Newton FINDS that root from the shifted initial guess is the measured part (the oracle checks both descriptions converge to it)', 'phi, varphi and (for helicity != 0) the *_untwisted coefficients are coordinate-dependent: they follow explicit laws (checked by the oracle), not a cyclic shift'])
 PROPS['C06'] = dict(
     lean=['QscProofs.Eqv', 'QscProofs.C13', 'QscProofs.EqvGrid'], theorems=eqv_theorems(EQV_ALL) + ['C13.counter_mul_four', 'EqvGrid.toep_rep', 'EqvGrid.sum_comp_modNat', 'EqvGrid.linearMap_eq_zero_of_modes', 'EqvGrid.curvature_repetition', 'EqvGrid.X2c_repetition', 'EqvGrid.DMerc_times_r2_repetition'],
     gen=EQV_ALL, eqv=EQV_ALL, corr=corr_generated(['Axis', 'R1d', 'R2']), oracle=oracle_multi(oracles.oracle_C06, count=6),
     rule=RULE + '; nfp = k compared with nfp = 1 at k*nphi for odd k', partial=EQV_PARTIAL)
 PROPS['C07'] = dict(
-    lean=['QscProofs.Eqv', 'QscProofs.C15', 'QscProofs.C13', 'QscProofs.C20Spec', 'QscProofs.EqvGrid'], theorems=eqv_theorems(EQV_ALL) + ['EqvGrid.toep_neg', 'EqvGrid.curvature_reversal', 'EqvGrid.X2c_reversal', 'EqvGrid.Z2c_reversal', 'EqvGrid.d2_l_d_phi2_reversal', 'EqvGrid.DMerc_times_r2_reversal', 'C15.lasym_iff', 'C15.lasym_false_iff', 'C13.counter_flipZ', 'C13.counter_reverse', 'C20Spec.toep_antisymm'],
+    lean=['QscProofs.Eqv', 'QscProofs.C15', 'QscProofs.C13', 'QscProofs.C20Spec', 'QscProofs.EqvGrid', 'QscProofs.C05Sigma'], theorems=eqv_theorems(EQV_ALL) + ['C05Sigma.' + t for t in ('residual_reversal_covariant', 'solution_reversal', 'residual_mirror_covariant', 'residual_reversal_mirror_covariant', 'gridD_anticomm_rev', 'residual_reversal_covariant_grid')] + ['EqvGrid.toep_neg', 'EqvGrid.curvature_reversal', 'EqvGrid.X2c_reversal', 'EqvGrid.Z2c_reversal', 'EqvGrid.d2_l_d_phi2_reversal', 'EqvGrid.DMerc_times_r2_reversal', 'C15.lasym_iff', 'C15.lasym_false_iff', 'C13.counter_flipZ', 'C13.counter_reverse', 'C20Spec.toep_antisymm'],
     gen=EQV_ALL, eqv=EQV_ALL, corr=corr_merge(corr_generated(['Axis', 'R1d', 'GradB', 'R2', 'Mercier', 'GGB', 'R3', 'RSing']), corr_hand_kernels(['vmec'])),
     oracle=oracle_multi(oracles.oracle_C07), rule=RULE, partial=EQV_PARTIAL)
 PROPS['C08'] = dict(
@@ -326,13 +326,13 @@ PROPS['C17'] = dict(
              'plot_axis needs mayavi, which is not installed in this sandbox: covered statically only'])
 
 PROPS['C18'] = dict(
-    lean=['QscProofs.C16', 'QscProofs.C20Spec', 'QscProofs.C20Interp', 'QscProofs.C18Conv'], theorems=['C16.even_nphi_promoted', 'C20Spec.D_exact_sin', 'C20Spec.D_exact_cos', 'C20Interp.interp_exact_sin', 'C20Interp.interp_exact_cos'] + ['C18Conv.' + t for t in ('D_exact_trigPoly', 'D_resolution_independent', 'mean_exact', 'quadrature_exact', 'quadrature_resolution_independent', 'mean_resolution_independent', 'integral_trigPoly', 'quadrature_eq_integral', 'interp_exact_trigPoly', 'interp_resolution_independent', 'trigPoly_mul_degree', 'D_exact_mul', 'mean_mul_resolution_independent', 'interp_exact_mul')],
+    lean=['QscProofs.C16', 'QscProofs.C20Spec', 'QscProofs.C20Interp', 'QscProofs.C18Conv', 'QscProofs.C18Trap'], theorems=['C18Trap.' + t for t in ('trapezoid_panel_error', 'trapezoid_cumulative_error', 'trapezoid_composite_error', 'varphiCum_trapSum', 'varphiCum_error', 'second_order', 'second_order_index', 'panel_bound_attained')] + ['C16.even_nphi_promoted', 'C20Spec.D_exact_sin', 'C20Spec.D_exact_cos', 'C20Interp.interp_exact_sin', 'C20Interp.interp_exact_cos'] + ['C18Conv.' + t for t in ('D_exact_trigPoly', 'D_resolution_independent', 'mean_exact', 'quadrature_exact', 'quadrature_resolution_independent', 'mean_resolution_independent', 'integral_trigPoly', 'quadrature_eq_integral', 'interp_exact_trigPoly', 'interp_resolution_independent', 'trigPoly_mul_degree', 'D_exact_mul', 'mean_mul_resolution_independent', 'interp_exact_mul')],
     gen=['Axis', 'R1d', 'R2', 'Mercier'], corr=corr_merge(corr_generated(['Axis', 'R1d', 'Mercier'], orders=('r2',)), corr_hand_kernels(['specdiff', 'dof', 'fmin', 'interp'])), oracle=oracle_multi(oracles.oracle_C18),
     rule=RULE + '; each case rebuilt with nphi - 1 (even) and on the ladder 31, 63, 127',
-    partial=['the quantitative convergence statements (1e-8 once resolved; second order for grid extrema and the trapezoid angle) are analysis: decided numerically on a resolution ladder and labelled as such (level "other" for that clause); proved: the promotion of even nphi, and (C18Conv) that on band-limited profiles every discrete operation the code uses - differentiation matrix, rectangle-rule period integrals and means (equal to the true integral), the trigonometric interpolant on which extrema are located, and pointwise products up to the aliasing limit (exact discrete Leibniz rule) - is exact and hence independent of the resolution, which is the structural reason for spectral convergence; the tail beyond the band limit and the nonlinear solves are the measured part'])
+    partial=['the quantitative convergence statements (1e-8 once resolved; second order for grid extrema and the trapezoid angle) are analysis: decided numerically on a resolution ladder and labelled as such (level "other" for that clause); proved: the promotion of even nphi, and (C18Conv) that on band-limited profiles every discrete operation the code uses - differentiation matrix, rectangle-rule period integrals and means (equal to the true integral), the trigonometric interpolant on which extrema are located, and pointwise products up to the aliasing limit (exact discrete Leibniz rule) - is exact and hence independent of the resolution, which is the structural reason for spectral convergence; the tail beyond the band limit and the nonlinear solves are the measured part; the second-order clause for the trapezoid-integrated Boozer angle is proved (C18Trap: the cumulative trapezoid sum that `varphiCum` models differs from the integral by at most j M h^3/12, i.e. L^3 M/(12 n^2) over a period, M a bound on the second derivative of dl/dphi; the constant is attained)'])
 
 PROPS['C19'] = dict(
-    lean=['QscProofs.C19', 'QscProofs.Eqv'], theorems=thms('QscProofs.C19') + eqv_theorems(['Shear']),
+    lean=['QscProofs.C19', 'QscProofs.C19Origin', 'QscProofs.Eqv'], theorems=thms('QscProofs.C19') + ['C19Origin.' + t for t in ('shifted_period_integral', 'ratio_origin_independent_of_c_zero', 'ratio_derivative', 'witness_ratio', 'origin_dependence_witness', 'shifted_description_ratio', 'shifted_description_witness')] + eqv_theorems(['Shear']),
     gen=['Shear'], eqv=['Shear'], corr=corr_merge(corr_generated(['Shear'], orders=('r3',), shear=True), corr_hand_kernels(['shear'])),
     oracle=oracle_multi(oracles.oracle_C19, orders=('r3',), count=3),
     rule=RULE, partial=['field reversal: known finding K3 (the equivariance engine finds no law for Z31c, Z31s, X31c, X31s, Y31s, LamTilde: they mix terms of different parity under (sG, spsi, I2) -> -(sG, spsi, I2))',
